@@ -780,7 +780,7 @@ package keyvalue
 //@ spec kvHas(fs *FS, p string) := in(p, dom(ms(fs).records))
 //@ spec kvRec(fs *FS, p string) := ms(fs).records[p]
 //@ spec fsInv(fs *FS) := fs != nil && fs.store != nil && fsStore(fs) != nil && storeUnlocked(fsStore(fs)) && implies(isMem(fs), mem.storeInv(ms(fs)))
-//@ spec freshHandle(f *file, fs *FS, path string) := f != nil && fresh(f) && f.fileData != nil && fresh(f.fileData) && f.fileData.path == path && f.fileData.fs == fs &&
+//@ spec freshHandle(f *file, fs *FS, path string) := f != nil && fresh(f) && allocated(f) && f.fileData != nil && fresh(f.fileData) && allocated(f.fileData) && f.fileData.path == path && f.fileData.fs == fs &&
 //@        f.offset == 0 && !f.closed && f.fileData.modeOverride == nil && f.fileData.modTimeOverride == 0 &&
 //@        fRec(f).dataDone == 0 && !oncedone(fRec(f).dataOnce) && !oncedone(fRec(f).dirNamesOnce) && !oncedone(fRec(f).modeOnce) && !oncedone(fRec(f).modTimeOnce) && !oncedone(fRec(f).sysOnce)
 
@@ -912,4 +912,48 @@ package keyvalue
 //@   ensures "mem-world" implies(isMem(fs), world() == old(world()))
 //@   ensures "store-error" [C14] implies(VP(name) && isSerial(fs) && err == nil, errIs(old(storeGetErr(fsStore(fs), name)), hackpadfs.ErrNotExist))
 //@   ensures "inv" fsInv(fs)
+//@   nopanic
+
+// ---- batched look-ups (mem world; the serial world of these loops is not under contract yet) ----
+//@ spec tsMem(store *transactionOnly) := store != nil && isType(store.store, *mem.store) && storeUnlocked(store.store)
+//@ spec tsRecs(store *transactionOnly) := memStoreOf(store.store).records
+//@ spec resFor(r OpResult, store *transactionOnly, p string) := ite(in(p, dom(tsRecs(store))), r.Record == tsRecs(store)[p] && r.Err == nil && r.Record != nil && mem.recOK(r.Record, memStoreOf(store.store), p),
+//@        r.Record == nil && r.Err == hackpadfs.ErrNotExist)
+//@ spec memTxn(txn Transaction) := txn.(*mem.transaction)
+
+//@ func getFileRecords(store *transactionOnly, paths []string) (rs []OpResult, err error)
+//@   props C01 C03 C14
+//@   requires tsMem(store) && len(paths) < 1<<30
+//@   dispatch Transaction *mem.transaction
+//@   modifies held(memStoreOf(store.store).mu)
+//@   loop 1 invariant "gets" rangeindex >= -1 && rangeindex < max(len(paths), 1) && (len(paths) > 0 || rangeindex == -1) && isType(txn, *mem.transaction) && mem.txnInv(memTxn(txn)) &&
+//@                      memTxn(txn).store == memStoreOf(store.store) && !memTxn(txn).released && !cancelled(memTxn(txn).ctx) && held(memStoreOf(store.store).mu) &&
+//@                      memTxn(txn).op == rangeindex + 1 && len(memTxn(txn).results) == rangeindex + 1 && (rangeindex == -1 || fresh(memTxn(txn).results)) &&
+//@                      forall(i, 0, rangeindex + 1, memTxn(txn).results[i].Op == i && resFor(memTxn(txn).results[i], store, paths[i]))
+//@   ensures "results" err == nil && len(rs) == len(paths) && forall(i, 0, len(paths), rs[i].Op == i && resFor(rs[i], store, paths[i]))
+//@   ensures "fresh" ref(rs) == 0 || fresh(rs)
+//@   ensures "unlocked" tsMem(store)
+//@   nopanic
+
+//@ spec fsMem(fs *FS) := fsInv(fs) && isMem(fs)
+//@ spec handleFor(f *file, e error, fs *FS, p string) := freshHandle(f, fs, p) && f.flag == 0 &&
+//@        ite(kvHas(fs, p), e == nil && fRec(f).record == kvRec(fs, p) && mem.recOK(fRec(f).record, ms(fs), p), e == hackpadfs.ErrNotExist && fRec(f).record == nil)
+
+//@ func (fs *FS) getFiles(paths ...string) (files []*file, errs []error)
+//@   props C01 C03 C04 C14 C17
+//@   requires fsMem(fs) && len(paths) < 1<<30
+//@   modifies held(ms(fs).mu)
+//@   loop 1 invariant "valid-so-far" rangeindex >= -1 && rangeindex < max(len(paths), 1) && (len(paths) > 0 || rangeindex == -1) && forall(j, 0, rangeindex + 1, VP(paths[j])) &&
+//@                      len(files) == len(paths) && len(errs) == len(paths) && fresh(files) && fresh(errs) && ref(files) != ref(errs) &&
+//@                      forall(j, 0, len(paths), files[j] == nil && errs[j] == nil)
+//@   loop 2 invariant "shape" rangeindex >= -1 && rangeindex < max(len(paths), 1) && (len(paths) > 0 || rangeindex == -1) && forall(j, 0, len(paths), VP(paths[j])) &&
+//@                      len(files) == len(paths) && len(errs) == len(paths) && fresh(files) && fresh(errs) && len(results) == len(paths) && fsMem(fs)
+//@   loop 2 invariant "results" forall(j, 0, len(paths), resFor(results[j], fs.store, paths[j]))
+//@   loop 2 invariant "handles" forall(j, 0, rangeindex + 1, handleFor(files[j], errs[j], fs, paths[j]))
+//@   loop 2 invariant "distinct" forall(j, 0, rangeindex + 1, forall(k, 0, j, files[j] != files[k] && files[j].fileData != files[k].fileData))
+//@   ensures "shape" len(files) == len(paths) && len(errs) == len(paths) && fresh(files) && fresh(errs)
+//@   ensures "gate" [C04] implies(exists(j, 0, len(paths), !VP(paths[j])), errs[0] == hackpadfs.ErrInvalid && forall(j, 0, len(paths), files[j] == nil))
+//@   ensures "handles" implies(forall(j, 0, len(paths), VP(paths[j])), forall(j, 0, len(paths), handleFor(files[j], errs[j], fs, paths[j])))
+//@   ensures "distinct" [C17] implies(forall(j, 0, len(paths), VP(paths[j])), forall(j, 0, len(paths), forall(k, 0, j, files[j] != files[k] && files[j].fileData != files[k].fileData)))
+//@   ensures "inv" fsMem(fs)
 //@   nopanic
